@@ -38,6 +38,11 @@ type Gen struct {
 	closureOf    map[*ssa.MakeClosure]*ssa.Function
 	uncontracted map[string]bool
 	funcs        map[string]*ssa.Function // key -> function (module functions with bodies)
+	reachCache   map[string]*Frame
+	fieldStoreIdx map[string][]ssa.Value
+	callSiteIdx  map[*ssa.Function][]ssa.CallInstruction
+	dynBusy      map[*ssa.Parameter]bool
+	implCache    map[string][]*ssa.Function
 	debug        bool
 	loadTime     time.Duration
 	contractFiles []string
@@ -47,7 +52,7 @@ func newGen() *Gen {
 	g := &Gen{spkgs: map[string]*ssa.Package{}, typesPkg: map[string]*types.Package{}, pkgAlias: map[string]string{}, ti: newTypeInfo(), arrSort: map[string]string{},
 		contracts: map[string]*Contract{}, macros: map[string]*Macro{}, specFuncs: map[string]SpecSig{}, facts: map[string]bool{}, tracked: map[string]string{},
 		trustedUsed: map[string]bool{}, frames: map[*ssa.Function]*Frame{}, fnIDs: map[*ssa.Function]int{}, globIDs: map[*ssa.Global]int{},
-		closureOf: map[*ssa.MakeClosure]*ssa.Function{}, uncontracted: map[string]bool{}, funcs: map[string]*ssa.Function{}}
+		closureOf: map[*ssa.MakeClosure]*ssa.Function{}, uncontracted: map[string]bool{}, funcs: map[string]*ssa.Function{}, reachCache: map[string]*Frame{}, dynBusy: map[*ssa.Parameter]bool{}, implCache: map[string][]*ssa.Function{}}
 	g.initTrusted()
 	return g
 }
